@@ -5,8 +5,13 @@ import BadgerModel.Source
 Tower structure as one key chain per level: `levels[i]` is the list of the keys of the nodes
 linked at level `i`, in chain order (`head.tower[i] → … → nil`).  A node is identified by its
 key (keys are unique in the list; `Put` of an existing key overwrites the value in place and
-creates no node).  `vals` is the node payload: key ↦ encoded `y.ValueStruct` (what
-`arena.putVal` stores), most recent binding first.
+creates no node).  `vals` is the value part of the arena as an append-only log of slots
+`(node key, encoded y.ValueStruct)` (what `arena.putVal` stores), newest slot first: the
+value word `(offset, size)` of a node designates one slot; `setValue` allocates a *fresh*
+slot and publishes it (`putVal` then `value.Store`), it never writes into an existing slot.
+A `ValueStruct` handed to a reader aliases its slot, so the bytes a reader holds can only
+stay valid if slots are immutable (`C22_seq_value_immutable`, `C22_conc_value_immutable`).
+The current payload of a node is its newest slot (`valueOf`).
 
 Node pointers are `SkRef`: the head node, `nil`, or the node with a given key.
 
@@ -74,7 +79,8 @@ def spliceScan (key : Bytes) : SkRef → List Bytes → SkRef × SkRef
 def findSpliceForLevel (s : Skiplist) (key : Bytes) (before : SkRef) (lvl : Nat) : SkRef × SkRef :=
   spliceScan key before (after before (s.level lvl))
 
-/-- `node.setValue` on the node with key `k` -/
+/-- `node.setValue` on the node with key `k`: `arena.putVal(v)` takes a fresh slot, then the
+    node's value word is switched to it; older slots are left untouched. -/
 def setValue (s : Skiplist) (k v : Bytes) : Skiplist := { s with vals := (k, v) :: s.vals }
 
 def insertAfterKey (p key : Bytes) : List Bytes → List Bytes
